@@ -28,6 +28,10 @@ import (
 //	P0:  package main; const c = <src>; func main() {}          -> builds / build error text
 //	P1:  the same plus println(c == <reflit>), var v <vt> = c; println(v), type switch on c
 //
+// A program case (`decls`) is a history of named constant declarations k1, k2, ... whose expressions name the
+// earlier ones; P0 is built for every prefix, P1 observes all constants of the longest prefix that builds (when P1
+// itself cannot be built or run, that is logged on the prefix's last declaration and the shorter prefix is observed).
+//
 // It judges nothing. Printed decimals are re-chunked (digit string -> base 10^4 limbs, no
 // arithmetic) into the BigInt JSON form {"s","l"} used by the specification.
 //
@@ -44,6 +48,11 @@ type c02Case struct {
 	DT     int             `json:"dt"`
 	// Kids are the non-leaf operands of a depth-2 expression, observed as constants of their own.
 	Kids []c02Case `json:"kids"`
+	// A program case (a history of constant declarations) has Decls instead of Expr/Src/...: declaration i is
+	// `const <Name> = <Src>`, placed at package level (Scope "pkg") or inside func main (Scope "func").
+	Name  []int     `json:"name"`
+	Scope string    `json:"scope"`
+	Decls []c02Case `json:"decls"`
 }
 
 type bigJSON struct {
@@ -89,26 +98,57 @@ func chunk(dec string) (bigJSON, bool) {
 var dtTypes = []string{"bool", "string", "int", "int8", "int16", "int32", "int64", "uint", "uint8", "uint16", "uint32",
 	"uint64", "uintptr", "float32", "float64", "complex64", "complex128"}
 
-func programs(k *c02Case) (p0, p1 string) {
-	src := string(drv.BytesOf(k.Src))
-	p0 = "package main\n\nconst c = " + src + "\n\nfunc main() {}\n"
+// decl is one constant declaration of a program text.
+type decl struct {
+	name string
+	k    *c02Case
+}
+
+// layout writes a program: the declarations (at package level or inside main) and, when checks is set, the
+// observing statements for every declaration, after all declarations.
+func layout(ds []decl, scope string, checks bool) string {
 	var b strings.Builder
-	b.WriteString("package main\n\nconst c = " + src + "\n\nfunc main() {\n")
-	if len(k.RefLit) > 0 {
-		b.WriteString("\tprintln(\"eq\", c == " + string(drv.BytesOf(k.RefLit)) + ")\n")
+	b.WriteString("package main\n\n")
+	ind := ""
+	if scope == "func" {
+		b.WriteString("func main() {\n")
+		ind = "\t"
 	}
-	if k.VT != "" {
-		b.WriteString("\tvar v " + k.VT + " = c\n\tprintln(\"v\", v)\n")
+	for _, d := range ds {
+		b.WriteString(ind + "const " + d.name + " = " + string(drv.BytesOf(d.k.Src)) + "\n")
 	}
-	if k.DT == 1 {
-		b.WriteString("\tvar i interface{} = c\n\tswitch i.(type) {\n")
-		for _, t := range dtTypes {
-			b.WriteString("\tcase " + t + ":\n\t\tprintln(\"dt\", \"" + t + "\")\n")
+	if scope != "func" {
+		b.WriteString("\nfunc main() {\n")
+	}
+	if checks {
+		for _, d := range ds {
+			n, q := d.name, "\""+d.name+"\""
+			if len(d.k.RefLit) > 0 {
+				b.WriteString("\tprintln(\"eq\", " + q + ", " + n + " == " + string(drv.BytesOf(d.k.RefLit)) + ")\n")
+			}
+			if d.k.VT != "" {
+				b.WriteString("\tvar v_" + n + " " + d.k.VT + " = " + n + "\n\tprintln(\"v\", " + q + ", v_" + n + ")\n")
+			}
+			if d.k.DT == 1 {
+				b.WriteString("\tvar i_" + n + " interface{} = " + n + "\n\tswitch i_" + n + ".(type) {\n")
+				for _, t := range dtTypes {
+					b.WriteString("\tcase " + t + ":\n\t\tprintln(\"dt\", " + q + ", \"" + t + "\")\n")
+				}
+				b.WriteString("\tdefault:\n\t\tprintln(\"dt\", " + q + ", \"other\")\n\t}\n")
+			}
 		}
-		b.WriteString("\tdefault:\n\t\tprintln(\"dt\", \"other\")\n\t}\n")
 	}
 	b.WriteString("}\n")
-	return p0, b.String()
+	return b.String()
+}
+
+func needsChecks(ds []decl) bool {
+	for _, d := range ds {
+		if len(d.k.RefLit) > 0 || d.k.VT != "" || d.k.DT == 1 {
+			return true
+		}
+	}
+	return false
 }
 
 // build builds src with the real scriggo; class is "ok", "builderr" (a *scriggo.BuildError), "err" or "hostpanic".
@@ -158,68 +198,140 @@ func run(p *scriggo.Program) (lines [][]string, class string, msg string) {
 	return lines, "ok", ""
 }
 
-func observe(k *c02Case, oracle bool) map[string]any {
-	kids := []any{}
-	for i := range k.Kids {
-		kids = append(kids, observe(&k.Kids[i], oracle))
-	}
-	o := map[string]any{"id": k.ID, "expr": k.Expr, "src": k.Src, "reflit": k.RefLit, "vt": k.VT, "dt": k.DT,
+func blank(k *c02Case) map[string]any {
+	return map[string]any{"id": k.ID, "expr": k.Expr, "src": k.Src, "reflit": k.RefLit, "vt": k.VT, "dt": k.DT,
 		"builds": "", "msg": []int{}, "chk": "none", "chkmsg": []int{}, "eq": "", "hasv": 0,
-		"v": bigJSON{L: []int{}}, "dtobs": "", "kids": kids}
-	p0, p1 := programs(k)
+		"v": bigJSON{L: []int{}}, "dtobs": "", "kids": []any{}}
+}
+
+// buildP0 builds (or, for the oracle guard, type-checks) a program without observing statements.
+func buildP0(src string, oracle bool) (class, msg string) {
+	if oracle {
+		return oracleCheck(src)
+	}
+	_, class, msg = build(src)
+	return class, msg
+}
+
+// runP1 builds and runs (oracle guard: type-checks and reads the constant values of) the observing program and
+// stores what it printed in the observation records of the declarations. If the observing program cannot be
+// built or run, the failure is logged on the last declaration only and false is returned.
+func runP1(ds []decl, scope string, oracle bool, recs []map[string]any) bool {
+	all := recs
+	set := func(k string, v any) {
+		for _, o := range recs {
+			o[k] = v
+		}
+	}
+	recs = recs[len(recs)-1:]
+	p1 := layout(ds, scope, true)
 	var lines [][]string
 	if oracle {
-		cls, msg := oracleCheck(p0)
-		o["builds"], o["msg"] = cls, drv.IntsS(msg)
-		if cls != "ok" {
-			return o
+		var cls, msg string
+		lines, cls, msg = oracleRun(p1, ds)
+		if cls != "ran" {
+			set("chk", cls)
+			set("chkmsg", drv.IntsS(msg))
+			return false
 		}
-		if len(k.RefLit) == 0 && k.VT == "" && k.DT != 1 {
-			return o
-		}
-		var cls1, msg1 string
-		lines, cls1, msg1 = oracleRun(p1, k)
-		o["chk"], o["chkmsg"] = cls1, drv.IntsS(msg1)
+		recs = all
+		set("chk", cls)
 	} else {
-		_, cls, msg := build(p0)
-		o["builds"], o["msg"] = cls, drv.IntsS(msg)
-		if cls != "ok" {
-			return o
-		}
-		if len(k.RefLit) == 0 && k.VT == "" && k.DT != 1 {
-			return o
-		}
 		p, cls1, msg1 := build(p1)
 		if cls1 != "ok" {
-			o["chk"], o["chkmsg"] = "chk-"+cls1, drv.IntsS(msg1)
-			return o
+			set("chk", "chk-"+cls1)
+			set("chkmsg", drv.IntsS(msg1))
+			return false
 		}
 		var cls2, msg2 string
 		lines, cls2, msg2 = run(p)
 		if cls2 != "ok" {
-			o["chk"], o["chkmsg"] = "chk-"+cls2, drv.IntsS(msg2)
-			return o
+			set("chk", "chk-"+cls2)
+			set("chkmsg", drv.IntsS(msg2))
+			return false
 		}
-		o["chk"] = "ran"
+		recs = all
+		set("chk", "ran")
 	}
 	for _, f := range lines {
-		if len(f) != 2 {
+		if len(f) != 3 {
+			continue
+		}
+		var o map[string]any
+		for i, d := range ds {
+			if d.name == f[1] {
+				o = all[i]
+			}
+		}
+		if o == nil {
 			continue
 		}
 		switch f[0] {
 		case "eq":
-			o["eq"] = f[1]
+			o["eq"] = f[2]
 		case "v":
-			if b, ok := chunk(f[1]); ok {
+			if b, ok := chunk(f[2]); ok {
 				o["hasv"], o["v"] = 1, b
 			} else {
-				o["hasv"], o["chkmsg"] = 2, drv.IntsS(f[1])
+				o["hasv"], o["chkmsg"] = 2, drv.IntsS(f[2])
 			}
 		case "dt":
-			o["dtobs"] = f[1]
+			o["dtobs"] = f[2]
 		}
 	}
+	return true
+}
+
+func observe(k *c02Case, oracle bool) map[string]any {
+	if len(k.Decls) > 0 {
+		return observeProg(k, oracle)
+	}
+	kids := []any{}
+	for i := range k.Kids {
+		kids = append(kids, observe(&k.Kids[i], oracle))
+	}
+	o := blank(k)
+	o["kids"] = kids
+	ds := []decl{{"c", k}}
+	cls, msg := buildP0(layout(ds, "pkg", false), oracle)
+	o["builds"], o["msg"] = cls, drv.IntsS(msg)
+	if cls != "ok" || !needsChecks(ds) {
+		return o
+	}
+	runP1(ds, "pkg", oracle, []map[string]any{o})
 	return o
+}
+
+// observeProg observes a history of constant declarations: the build outcome of every prefix 1..i (so that the
+// first rejected declaration is known), and the values of all constants of the longest prefix that builds, read
+// by one observing program after all of its declarations.
+func observeProg(k *c02Case, oracle bool) map[string]any {
+	ds := make([]decl, len(k.Decls))
+	recs := make([]map[string]any, len(k.Decls))
+	for i := range k.Decls {
+		d := &k.Decls[i]
+		ds[i] = decl{string(drv.BytesOf(d.Name)), d}
+		recs[i] = blank(d)
+		delete(recs[i], "id")
+		recs[i]["name"] = d.Name
+	}
+	nobs := 0
+	for i := range ds {
+		cls, msg := buildP0(layout(ds[:i+1], k.Scope, false), oracle)
+		recs[i]["builds"], recs[i]["msg"] = cls, drv.IntsS(msg)
+		if cls != "ok" {
+			break
+		}
+		nobs = i + 1
+	}
+	// the observing program over the longest prefix that builds; when it cannot be built or run, the failure is
+	// logged on the last declaration of that prefix and the constants before it are observed without it
+	for m := nobs; m > 0 && needsChecks(ds[:m]); m-- {
+		if runP1(ds[:m], k.Scope, oracle, recs[:m]) {
+			break
+		}
+	}
+	return map[string]any{"id": k.ID, "scope": k.Scope, "nobs": nobs, "decls": recs}
 }
 
 // ---------------------------------------------------------------------------------------------
@@ -250,32 +362,51 @@ func oracleCheck(p0 string) (class, msg string) {
 	return "ok", ""
 }
 
-// oracleRun type-checks P1 and reads the constant values go/types computed for `c == reflit`, for c
-// (when an integer is to be printed) and c's default type.
-func oracleRun(p1 string, k *c02Case) (lines [][]string, class, msg string) {
-	pkg, info, f, err := oracleTypes(p1)
+// oracleRun type-checks P1 and reads the constant values go/types computed for the arguments of the
+// println("eq", "<name>", <name> == reflit) statements, for the named constants (when an integer is to be printed)
+// and their default types.
+func oracleRun(p1 string, ds []decl) (lines [][]string, class, msg string) {
+	_, info, f, err := oracleTypes(p1)
 	if err != nil {
 		return nil, "chk-builderr", err.Error()
 	}
-	c := pkg.Scope().Lookup("c").(*types.Const)
+	consts := map[string]*types.Const{}
+	for id, obj := range info.Defs {
+		if c, ok := obj.(*types.Const); ok {
+			consts[id.Name] = c
+		}
+	}
 	ast.Inspect(f, func(n ast.Node) bool {
-		if be, ok := n.(*ast.BinaryExpr); ok && be.Op == token.EQL {
-			if id, ok := be.X.(*ast.Ident); ok && id.Name == "c" {
-				if tv, ok := info.Types[be]; ok && tv.Value != nil {
-					lines = append(lines, []string{"eq", tv.Value.String()})
-				}
+		call, ok := n.(*ast.CallExpr)
+		if !ok || len(call.Args) != 3 {
+			return true
+		}
+		if fn, ok := call.Fun.(*ast.Ident); !ok || fn.Name != "println" {
+			return true
+		}
+		tag, ok1 := call.Args[0].(*ast.BasicLit)
+		name, ok2 := call.Args[1].(*ast.BasicLit)
+		if ok1 && ok2 && tag.Value == "\"eq\"" {
+			if tv, ok := info.Types[call.Args[2]]; ok && tv.Value != nil {
+				lines = append(lines, []string{"eq", strings.Trim(name.Value, "\""), tv.Value.String()})
 			}
 		}
 		return true
 	})
-	if k.VT != "" {
-		if v := constant.ToInt(c.Val()); v.Kind() == constant.Int {
-			lines = append(lines, []string{"v", v.ExactString()})
+	for _, d := range ds {
+		c := consts[d.name]
+		if c == nil {
+			continue
 		}
-	}
-	if k.DT == 1 {
-		if b, ok := types.Default(c.Type()).Underlying().(*types.Basic); ok {
-			lines = append(lines, []string{"dt", types.Typ[b.Kind()].Name()})
+		if d.k.VT != "" {
+			if v := constant.ToInt(c.Val()); v.Kind() == constant.Int {
+				lines = append(lines, []string{"v", d.name, v.ExactString()})
+			}
+		}
+		if d.k.DT == 1 {
+			if b, ok := types.Default(c.Type()).Underlying().(*types.Basic); ok {
+				lines = append(lines, []string{"dt", d.name, types.Typ[b.Kind()].Name()})
+			}
 		}
 	}
 	return lines, "ran", ""
@@ -296,9 +427,22 @@ func main() {
 			drv.Must(json.Unmarshal(raw, &k))
 			defer func() {
 				if r := recover(); r != nil {
-					out = []any{map[string]any{"id": k.ID, "expr": k.Expr, "src": k.Src, "reflit": k.RefLit, "vt": k.VT,
-						"dt": k.DT, "builds": "hostpanic", "msg": drv.IntsS(fmt.Sprint(r)), "chk": "none", "chkmsg": []int{},
-						"eq": "", "hasv": 0, "v": bigJSON{L: []int{}}, "dtobs": "", "kids": []any{}}}
+					o := blank(&k)
+					o["builds"], o["msg"] = "hostpanic", drv.IntsS(fmt.Sprint(r))
+					if len(k.Decls) > 0 { // a program: the panic is logged on its first declaration
+						d := blank(&k.Decls[0])
+						delete(d, "id")
+						d["name"], d["builds"], d["msg"] = k.Decls[0].Name, "hostpanic", o["msg"]
+						ds := []any{d}
+						for i := 1; i < len(k.Decls); i++ {
+							e := blank(&k.Decls[i])
+							delete(e, "id")
+							e["name"] = k.Decls[i].Name
+							ds = append(ds, e)
+						}
+						o = map[string]any{"id": k.ID, "scope": k.Scope, "nobs": 0, "decls": ds}
+					}
+					out = []any{o}
 				}
 			}()
 			return []any{observe(&k, oracle)}
